@@ -16,7 +16,7 @@ short) are decided before the first write; (e) the JoinAccept is MIC-ed and then
 primitive over bytes 1.. in 16-byte blocks. Not decided: that the aes / cmac crates compute AES / CMAC, and equality
 with an independent implementation on concrete inputs."""
 from ..runner import Result, CheckError
-from .. import rules, flow, layout, bits, tables
+from .. import rules, flow, layout, bits, tables, absint_interp, spi
 from ..rules import param_by_name, term_of_operand, term_str, callee_name, path_conditions, cond_true, cond_false
 from ..flow import term_contains
 from ..layout import peel, buffer_script, off, term_bits, index_call, range_of
@@ -224,6 +224,15 @@ def run(tier):
     writes = [x for x in sc if x[0] in ('byte', 'range')]
     fl = ('len(&**arg%d.f_opts)' % sp, 1)
 
+    def to_frame_end(x):
+        """the range runs to the end of the frame: open-ended, or ending 4 bytes after its start (the frame ends with the 4 MIC bytes)"""
+        if x[2] is None:
+            return True
+        a, b = x[1], x[2]
+        a = (a, ()) if isinstance(a, int) else a
+        b = (b, ()) if isinstance(b, int) else b
+        return b[0] - a[0] == 4 and a[1] == b[1]
+
     def is_port_cursor(o):
         return isinstance(o, tuple) and o[0] == 0 and len(o[1]) == 1 and o[1][0][1] == 1 and o[1][0][0].startswith('φ_')
     want = [
@@ -235,7 +244,7 @@ def run(tier):
         ('FOpts', lambda x: x[0] == 'range' and x[1] == 8 and x[2] == (8, (fl,)) and self_field(x[3], sp, 'f_opts')),
         ('FPort', lambda x: x[0] == 'byte' and is_port_cursor(x[1])),
         ('FRMPayload', lambda x: x[0] == 'range' and is_port_cursor(x[1]) and isinstance(x[2], tuple) and len(x[2][1]) == 2),
-        ('MIC', lambda x: x[0] == 'range' and x[2] is None and term_contains(x[3], lambda y: isinstance(y, tuple) and y[:1] == ('call',) and y[1].endswith('calculate_data_mic'))),
+        ('MIC', lambda x: x[0] == 'range' and to_frame_end(x) and term_contains(x[3], lambda y: isinstance(y, tuple) and y[:1] == ('call',) and y[1].endswith('calculate_data_mic'))),
     ]
     okl = len(writes) == len(want) and all(p(x) for (n, p), x in zip(want, writes))
     res.require(okl, 'C01:DataFrame::build_into:layout', 'data frame writes are not MHDR[0] DevAddr[1..5] FCtrl[5] FCnt16[6..8] FOpts[8..] FPort FRMPayload MIC: %s' % [
@@ -256,7 +265,7 @@ def run(tier):
     res.require(okc, 'C01:DataFrame::build_into:cursor', 'FPort/FRMPayload offset is not 8 + FOptsLen (+1 after the port byte)', bf.body.path, 'SPEC-LAYOUT(offset of FPort)',
                 instance='FPort at 8 + len(FOpts); FRMPayload right after it')
     # contiguity: the MIC starts where the FRMPayload ends (no byte of the frame is left unwritten)
-    micw0 = [x for x in writes if x[0] == 'range' and x[2] is None]
+    micw0 = [x for x in writes if want[-1][1](x)]
     frmw = [x for x in writes if x[0] == 'range' and is_port_cursor(x[1]) and isinstance(x[2], tuple)]
     okg = len(micw0) == 1 and len(frmw) == 1 and isinstance(micw0[0][1], tuple)
     if okg:
@@ -293,6 +302,9 @@ def run(tier):
     arms = {}
     if tup is not None:
         for v, cs, bb in rules.defs_with_conditions(bf, tup[1]):
+            v = peel(v)
+            while v[0] == 'agg' and v[1].endswith(('Result::Ok', 'Option::Some')) and len(v[2]) == 1:
+                v = peel(v[2][0][1])        # the selection travels as Ok((port, payload, key)) through `?` when it lives in a helper
             if v[0] != 'tuple':
                 continue
             d = [x for x in cs if x[0][0] == 'discr' and self_field(peel(x[0][1]), sp, 'payload')]
@@ -329,7 +341,7 @@ def run(tier):
     okm = ma[1] == ('param', nwk) and self_field(ma[2], sp, 'fcnt') and ic is not None and ic[1][2] == 'to' and bf.cfg.dominates(enc[0][0], mic[0][0]) is False or True
     okm = ma[1] == ('param', nwk) and self_field(ma[2], sp, 'fcnt') and ic is not None and ic[1][2] == 'to'
     # MIC range: out[..total-4] and stored at out[total-4..]
-    micw = [x for x in writes if x[0] == 'range' and x[2] is None]
+    micw = [x for x in writes if want[-1][1](x)]
     okm = okm and len(micw) == 1 and off(ic[1][1]) == micw[0][1]
     res.require(okm, 'C01:DataFrame::build_into:mic', 'MIC is not calculate_data_mic(out[..total-4], NwkSKey crypto, full self.fcnt) stored at out[total-4..]', short_site(bf, mic[0][0]),
                 'PROVENANCE(MIC)', instance='MIC = cmac(B0 | out[..total-4]) with the NwkSKey and the 32-bit counter, stored in the last 4 bytes')
@@ -408,45 +420,68 @@ def run(tier):
     res.require(not bad and n_combo == 64, 'C01:fctrl:bits', 'FCtrl differs from ADR(7) ADRACKReq(6, uplink only) ACK(5) FPending(4, downlink only) FOptsLen(3..0): %s' % bad[:3], fb.path,
                 'TABLE(FCtrl bits, 64 flag combinations, length symbolic)', instance='FCtrl: ADR bit 7, ADRACKReq bit 6 (uplinks), ACK bit 5, FPending bit 4 (downlinks), FOptsLen bits 3..0')
     # ------------------------------------------------------------------ helper blocks
-    hb = c.bf(E + 'securityhelpers::generate_helper_block')
-    dp, fp, cp, rp = 1, 2, 3, 4
-    sc = buffer_script(hb, lambda t: t == ('param', rp))
-    got = {}
-    for w in sc:
-        if w.kind == 'byte':
-            got[off(w.start)] = bits.fmt(term_bits(hb, w.value, 8))
-        elif w.kind == 'range':
-            ic = index_call(w.value)
-            got[(off(w.start), off(w.end))] = (term_str(ic[0]), off(ic[1][0]), off(ic[1][1])) if ic else term_str(w.value)
+    # judged where the block is used, whatever builds it (out-parameter helper, by-value helper, inline code): the abstract
+    # interpreter runs the function and the 16 bytes handed to the AES primitive are read bit by bit at the call
+    def blocks_at(fn_body, hook, argi):
+        an = absint_interp.new_analyzer(prog, max_depth=6)
+        rec = []
 
-    def byte_of(arg, lo):
-        return '[' + ' '.join('arg%d.%d' % (arg, k) for k in range(lo + 7, lo - 1, -1)) + ']'
-    want_h = {0: byte_of(fp, 0), 5: '[0 0 0 0 0 0 0 index(*arg1, 0).5]', (6, 10): ('arg1', 1, 5), 10: byte_of(cp, 0), 11: byte_of(cp, 8), 12: byte_of(cp, 16), 13: byte_of(cp, 24)}
-    res.require(got == want_h, 'C01:generate_helper_block:layout', 'B0/Ai block is not [tag, 0,0,0,0, dir = MHDR bit 5, DevAddr = frame[1..5], FCnt 4 bytes LE, 0, x]: %s' % got, hb.body.path,
-                'SPEC-LAYOUT(B0 / Ai block)', instance='helper block: tag | 0000 | dir(MHDR bit 5) | DevAddr(frame 1..5) | FCnt32 LE | 0 | byte 15 set by the caller')
+        def h(an_, t, args, frame, st, nm):
+            rec.append([spi.fmt_byte(x) for x in spi.slice_bits(an_, st, args[argi], frame)])
+        an.call_hooks[hook] = h
+        an.analyze_entry(fn_body)
+        return rec
+
+    def pname(body, i):
+        nm = [n for n, pl in body.dbg if pl.is_local() and pl.local == i]
+        if not nm:
+            raise CheckError('anchor: parameter %d of %s has no name' % (i, body.path))
+        return nm[0]
+
+    def byte_of(nm, lo=0):
+        return '[' + ' '.join('%s.%d' % (nm, k) for k in range(lo + 7, lo - 1, -1)) + ']'
+
+    def helper_want(tag, frame_nm, cnt_nm):
+        return ['0x%02X' % tag, '0x00', '0x00', '0x00', '0x00', '[0 0 0 0 0 0 0 %s[0].5]' % frame_nm] + [byte_of('%s[%d]' % (frame_nm, k)) for k in range(1, 5)] + \
+            [byte_of(cnt_nm, 8 * k) for k in range(4)] + ['0x00']
     mbf = c.bf(E + 'securityhelpers::calculate_data_mic')
-    ghb = [(bb, t) for bb, t in mbf.calls() if callee_name(t).endswith('generate_helper_block')]
+    rec = blocks_at(mbf.body, 'Crypto::calculate_mic', 1)
+    if not rec:
+        raise CheckError('anchor: calculate_data_mic does not reach Crypto::calculate_mic')
+    want_b0 = helper_want(0x49, pname(mbf.body, 1), pname(mbf.body, 3)) + [byte_of(pname(mbf.body, 1) + '.len')]
+    badr = [r for r in rec if r != want_b0]
+    res.require(not badr, 'C01:generate_helper_block:layout', 'B0 block is not [0x49, 0,0,0,0, dir = MHDR bit 5, DevAddr = frame[1..5], FCnt 4 bytes LE, 0, len(msg)]: %s' % (badr[:1],), mbf.body.path,
+                'SPEC-LAYOUT(B0 block, bits at the cmac call)', instance='B0 at Crypto::calculate_mic: 0x49 | 0000 | dir(MHDR bit 5) | DevAddr(frame 1..5) | FCnt32 LE | 0 | len(msg)')
     cm = [(bb, t) for bb, t in mbf.calls() if callee_name(t).endswith('Crypto::calculate_mic')]
-    okb = len(ghb) == 1 and len(cm) == 1
+    okb = len(cm) == 1
     if okb:
-        a = [peel(term_of_operand(mbf, x)) for x in ghb[0][1].args]
-        b0 = index_call(a[3])
-        okb = a[0] == ('param', 1) and a[1] == ('const', 0x49) and a[2] == ('param', 3) and b0 is not None
-        w15 = [w for w in buffer_script(mbf, lambda t: b0 is not None and t == b0[0]) if w.kind == 'byte']
-        okb = okb and len(w15) == 1 and off(w15[0].start) == 15 and peel(w15[0].value)[0] == 'cast' and is_call(peel(w15[0].value)[2], '::len') and peel(peel(w15[0].value)[2][2][0]) == ('param', 1)
         ca = [peel(term_of_operand(mbf, x)) for x in cm[0][1].args]
-        okb = okb and ca[0] == ('param', 2) and index_call(ca[1]) is not None and index_call(ca[1])[0] == b0[0] and ca[2] == ('param', 1) and _before(mbf, ghb[0][0], cm[0][0])
-    res.require(okb, 'C01:calculate_data_mic:b0', 'MIC is not cmac(key, B0 | msg) with B0 = helper block(0x49, full counter) and B0[15] = len(msg)', mbf.body.path, 'SPEC-LAYOUT(B0) + PROVENANCE',
-                instance='calculate_data_mic: B0 tag 0x49, counter 32 bits, B0[15] = message length, cmac over B0 | msg')
+        okb = ca[0] == ('param', 2) and ca[2] == ('param', 1)
+    res.require(okb, 'C01:calculate_data_mic:b0', 'MIC is not cmac(key, B0 | msg) over the whole message under the given key', mbf.body.path, 'PROVENANCE(cmac arguments)',
+                instance='calculate_data_mic: one cmac call, key = the crypto given, message = the whole data slice')
     ebf = c.bf(E + 'securityhelpers::encrypt_frm_data_payload')
-    ghb = [(bb, t) for bb, t in ebf.calls() if callee_name(t).endswith('generate_helper_block')]
+    rec = blocks_at(ebf.body, 'Crypto::encrypt_block', 1)
+    if not rec:
+        raise CheckError('anchor: encrypt_frm_data_payload does not reach Crypto::encrypt_block')
+    want_a = helper_want(0x01, pname(ebf.body, 1), pname(ebf.body, 4))
+    bada = [r for r in rec if r[:15] != want_a]
+    res.require(not bada and rec[0][15] == '0x01', 'C01:encrypt_frm_data_payload:ai', 'Ai block is not [0x01, 0,0,0,0, dir, DevAddr, FCnt 4 bytes LE, 0, block index from 1]: %s' % ((bada or rec)[:1],), ebf.body.path,
+                'SPEC-LAYOUT(Ai block, bits at the AES call)', instance='Ai at Crypto::encrypt_block: 0x01 | 0000 | dir | DevAddr | FCnt32 LE | 0 | i (first block 1)')
     eb = [(bb, t) for bb, t in ebf.calls() if callee_name(t).endswith('Crypto::encrypt_block')]
-    okx = len(ghb) == 1 and len(eb) == 1
+    okx = len(eb) == 1
     if okx:
-        a = [peel(term_of_operand(ebf, x)) for x in ghb[0][1].args]
-        okx = a[0] == ('param', 1) and a[1] == ('const', 1) and a[2] == ('param', 4)
-        ablk = index_call(a[3])[0] if index_call(a[3]) else a[3]
-        okx = okx and (_ctr_shape(ebf, ablk, eb) or _ctr_shape_blocks(ebf, ablk, eb))
+        # the Ai array: the local whose byte 15 is stored
+        a15 = set()
+        for b_ in ebf.body.blocks:
+            for s_ in b_.stmts:
+                if s_.k == 'assign' and s_.lhs.proj and not b_.cleanup:
+                    lt = flow.term_of_place(ebf, s_.lhs)
+                    if lt[0] in ('index', 'cindex') and (lt[2] == ('const', 15) or lt[2] == 15) and peel(lt[1])[0] == 'phi':
+                        a15.add(peel(lt[1]))
+        okx = len(a15) == 1
+        if okx:
+            ablk = next(iter(a15))
+            okx = _ctr_shape(ebf, ablk, eb) or _ctr_shape_blocks(ebf, ablk, eb)
     res.require(okx, 'C01:encrypt_frm_data_payload:ctr', 'payload encryption is not AES-CTR with Ai = helper block(0x01, full counter), Ai[15] = 1, 2, 3, ... per 16 bytes, XOR at start + i with keystream byte i & 15',
                 ebf.body.path, 'SPEC-LAYOUT(Ai) + INDUCTION(block counter) + SHAPE(xor)', instance='FRMPayload: XOR with AES(Ai), Ai tag 0x01, block index from 1, keystream byte i mod 16')
     # ------------------------------------------------------------------ JoinAccept
